@@ -100,6 +100,8 @@ def write_replay(h, res):
         json.dump({
             "property": h.property, "harness": h.path, "harness_file": h.module.file,
             "obligation": h.obligation,
+            "native_playback": res.get("playback"),
+            "playback_test": core.playback_source(h, res["violations"][0]) if res["violations"] else None,
             "violations": [{k: v for k, v in x.items()} for x in res["violations"]],
             "how_to_replay": f"python3 {core.VERIF}/bsverif/run.py {h.property} --only {h.name}   "
                              "(re-encodes /repo's current tree; the solver returns the same class of "
@@ -118,6 +120,9 @@ def main():
     ap.add_argument("--replay")
     ap.add_argument("--build-only", action="store_true")
     ap.add_argument("--loops", action="store_true", help="list the loops of the selected harnesses and stop")
+    ap.add_argument("--no-playback", action="store_true",
+                    default=os.environ.get("BSVERIF_PLAYBACK", "1") == "0",
+                    help="do not replay counterexamples natively (development only)")
     a = ap.parse_args()
     if a.replay:
         # a replay file names its harness: re-run exactly that harness against the current tree
@@ -154,8 +159,34 @@ def main():
     for h in sel:
         if h.module not in used_mods:
             used_mods.append(h.module)
+    for m in list(used_mods):
+        for stem in m.requires:
+            for m2 in mods:
+                if m2.stem == stem and m2 not in used_mods:
+                    used_mods.append(m2)
     core.log(f"{a.property} tier={tier}: {len(sel)} harness instance(s); snapshot + build ...")
     th, ok, problems, build_s, meta = core.prepare(used_mods, sel)
+    dropped = []   # harnesses whose module does not compile against this tree: INCONCLUSIVE, the others still run
+    if not ok:
+        text = " ".join(problems)
+        bad = [m for m in used_mods if m.file in text]
+        if bad and len(bad) < len(used_mods):
+            bad_stems = {m.stem for m in bad}
+            keep_mods = [m for m in used_mods if m.stem not in bad_stems
+                         and not any(r in bad_stems for r in m.requires)]
+            dropped = [h for h in sel if h.module not in keep_mods]
+            sel2 = [h for h in sel if h.module in keep_mods]
+            if sel2:
+                core.log("harness module(s) %s do not compile against this tree; running the other modules"
+                         % ", ".join(sorted(bad_stems)))
+                first_problems = problems
+                th, ok, problems, build_s2, meta = core.prepare(keep_mods, sel2)
+                build_s += build_s2
+                if ok:
+                    sel = sel2
+                    problems = first_problems
+                else:
+                    dropped = []
     known = load_known()
     results = []
     if a.build_only:
@@ -177,15 +208,35 @@ def main():
     wall = time.time() - t0
 
     n_viol = 0
-    inconclusive = not ok
+    inconclusive = not ok or bool(dropped)
+    for h in dropped:
+        print(f"INCONCLUSIVE property={a.property} harness={h.name}: its harness module does not compile against this tree "
+              f"(a name it refers to changed): {'; '.join(problems)[:300]}")
     for h, r in zip(sel, results):
-        for k in r["known"]:
-            pass
+        if r["verdict"] == "VIOLATION":
+            # replay before reporting (DESIGN section 5)
+            if r.get("stubs_applied"):
+                r["playback"] = {"mode": "model", "status": "not-applicable",
+                                 "detail": "the harness runs the real code behind declared stubs, which do not exist in a "
+                                           "native build; the counterexample is CBMC's trace over that encoding"}
+            elif a.no_playback:
+                r["playback"] = {"mode": "model", "status": "skipped", "detail": "--no-playback"}
+            else:
+                core.log(f"  {h.name}: replaying the counterexample natively (cargo kani playback) ...")
+                st, detail = core.native_playback(h, r["violations"][0])
+                r["playback"] = {"mode": "native", "status": st, "detail": detail}
+                core.log(f"  {h.name}: native playback: {st} {detail}")
+                if st == "not-reproduced" and all(v["class"] != "M" for v in r["violations"]):
+                    r["verdict"] = "INCONCLUSIVE"
+                    r["reasons"].append("ENCODING-MISMATCH: the counterexample does not reproduce against the natively "
+                                        "compiled code; no claim")
         if r["verdict"] == "VIOLATION":
             p = write_replay(h, r)
             n_viol += 1
             for v in r["violations"][:3]:
                 print(f"  violated [{v['class']}] {v['desc'][:160]} @ {v['loc'][-120:]}")
+            pb = r.get("playback") or {}
+            print(f"  replay: {pb.get('mode')} {pb.get('status')} {pb.get('detail', '')[:200]}")
             print(f"VIOLATION property={a.property} replay={p}")
         elif r["verdict"] == "INCONCLUSIVE":
             inconclusive = True
